@@ -17,7 +17,7 @@ from prog import kids, short
 from rules.common import strip_casts, const_of
 from rules.effects import canon
 
-DOMS = {'engine::Rank': 8, 'engine::File': 8, 'engine::Color': 2, 'engine::Square': 64, 'bool': 2,
+DOMS = {'engine::Rank': 8, 'engine::File': 8, 'engine::Color': 2, 'engine::Square': 65, 'bool': 2,
         'engine::PieceKind': 7, 'engine::Castling': 16}
 TAUT = ('taut',)
 FALSE = ('false',)
